@@ -1822,7 +1822,7 @@ func c21R6(w *World, r *Report) {
 					if call, ok := st.Val.(*ssa.Call); ok {
 						if _, elems, ok := appendedElems(call); ok {
 							for _, e := range elems {
-								if e == ssa.Value(hp) {
+								if e == ssa.Value(hp) || (hp != nil && w.path(e) == w.path(hp)) {
 									return ev("stored").count("fate")
 								}
 							}
@@ -1877,8 +1877,15 @@ func c21R6(w *World, r *Report) {
 				}
 				eachInstr(fn, func(in ssa.Instruction) {
 					st, ok := in.(*ssa.Store)
-					if !ok || !st.Block().Dominates(ret.Block()) {
+					if !ok {
 						return
+					}
+					if st.Parent() == ret.Parent() {
+						if !st.Block().Dominates(ret.Block()) {
+							return
+						}
+					} else if st.Parent() != u.Parent() || !(st.Block() == u.Block() || u.Block().Dominates(st.Block()) || st.Block().Dominates(u.Block())) {
+						return // in an extracted helper: on the path of the very load it lends
 					}
 					if _, field, _, ok := w.structFieldOf(st.Addr); !ok || field != "idle" {
 						return
